@@ -585,10 +585,27 @@ def run(ctx):
     # the snapshot handed back is the one that was applied
     tg = P.fn("track_get_connected_fd")
     r4.instance(tg.qname)
-    if any(op == "=" and tg.show(lhs).replace(" ", "") == "*tcp_opts" and tg.show(rhs) == "track->tcp_opts" for b, i, e, lhs, rhs, op in tg.stores() if rhs is not None):
-        r4.ok("the tracker hands back the options it applied", "store")
+    # the snapshot is a private by-value copy taken when the attempt was created; the same field is what is applied
+    # before connect() and what is handed back
+    trec = P.record("track")
+    snap = [fl["name"] for fl in trec["fields"] if (fl.get("type") or fl.get("t") or "").strip() == "struct tcp_opts"]
+    if len(snap) != 1:
+        r4.violation("track:snapshot-field", "struct track holds no by-value copy of the TCP options (fields of type struct tcp_opts: %s): "
+                     "the 'applied' snapshot would follow later changes of the socket's options and re-application would never happen" % snap, loc=tg.file)
     else:
-        r4.violation("track_get_connected_fd:snapshot", "the snapshot returned is not the track's applied options", loc=tg.file)
+        F = snap[0]
+        applied = any(nx.sn(nx.nodes[c]["args"][0])["k"] == "un" and nx.sn(nx.nodes[c]["args"][0])["op"] == "&" and
+                      nx.fields_of(nx.sn(nx.nodes[c]["args"][0])["sub"])[-1:] == (F,) for c in nx.calls("tcp_opts_effectuate"))
+        outp = [p["name"] for p in tg.params if (p.get("t") or "").strip() == "struct tcp_opts *"]
+        handed = any(op == "=" and rhs is not None and tg.sn(lhs)["k"] == "un" and tg.sn(lhs)["op"] == "*" and tg.sn(tg.sn(lhs)["sub"]).get("name") in outp
+                     and tg.sn(rhs)["k"] == "member" and tg.sn(rhs)["field"] == F for b, i, e, lhs, rhs, op in tg.stores())
+        tc_ = P.fn("track_create")
+        copied = any(n["k"] == "init" and n.get("fields") and F in n["fields"] and tc_.sn(n["elems"][n["fields"].index(F)])["k"] == "un"
+                     and tc_.sn(n["elems"][n["fields"].index(F)])["op"] == "*" for n in tc_.nodes.values())
+        if applied and handed and copied:
+            r4.ok("the tracker copies the options when the attempt is created, applies that copy before connect() and hands the same copy back", "field identity")
+        else:
+            r4.violation("track:snapshot", "snapshot field %s: copied at creation=%s, applied before connect=%s, handed back=%s" % (F, copied, applied, handed), loc=tg.file)
 
     # ------------------------------------------------------------------ R5
     r5 = ctx.rule("C11.R5", "creation-only attributes are refused with EACCES afterwards, changing nothing")
@@ -773,10 +790,35 @@ def run(ctx):
         if sd is None:
             continue
         r7.instance("xcm.blocking: %s" % sd.qname)
-        if list(sd.calls("xcm_set_blocking")) and gd is not None and any(m["k"] == "member" and m["field"] == "is_blocking" for m in gd.nodes.values()):
-            r7.ok("xcm.blocking is set through xcm_set_blocking and read from the same flag", "agreement")
+        missed = []
+
+        class ViaApi(C.Rule):
+            def initial(s2, fn):
+                return False
+
+            def elem(s2, fn, st, nid, blk, idx):
+                n = fn.nodes[nid]
+                if n["k"] == "call" and n.get("callee") == "xcm_set_blocking":
+                    return True
+                if n["k"] == "return" and n.get("sub") is not None and not st:
+                    cv = C.const_of(fn, n["sub"])
+                    if cv is None or cv >= 0:
+                        missed.append(nid)
+                return None
+        C.explore(sd, ViaApi())
+        getter_ok = gd is not None and any(m["k"] == "member" and m["field"] == "is_blocking" for m in gd.nodes.values())
+        if list(sd.calls("xcm_set_blocking")) and not missed and getter_ok:
+            r7.ok("xcm.blocking: every successful path of the setter goes through xcm_set_blocking; read from the same flag", "path exploration")
         else:
-            r7.violation("%s:blocking" % sd.name, "xcm.blocking is not the xcm_set_blocking switch", loc=sd.file)
+            r7.violation("%s:blocking" % sd.name, "the xcm.blocking setter can succeed without calling xcm_set_blocking(): the attribute and the function are "
+                         "no longer the same switch (pending work is neither finished nor reported)", loc=sd.loc(missed[0]) if missed else sd.file)
+    # nobody else writes the flag
+    r7.instance("who writes xcm_socket.is_blocking")
+    wr = sorted({f.name for f in P.functions for b, i, e, lhs, rhs, op in f.stores() if f.fields_of(lhs)[-1:] == ("is_blocking",)})
+    if set(wr) <= {"xcm_set_blocking", "xcm_tp_socket_create"} and "xcm_set_blocking" in wr:
+        r7.ok("the blocking flag is written only by xcm_set_blocking and at creation", "who-may-write")
+    else:
+        r7.violation("is_blocking:writers", "the blocking flag is written by %s" % wr, loc=None)
     r7.floor(2, "registrations")
 
     # ------------------------------------------------------------------ R8
